@@ -217,6 +217,16 @@ EXPORT void vec_znx_normalize_base2k_ref(const MODULE* module,                  
 ) {
   const uint64_t nn = module->nn;
 
+  // nothing to write
+  if (res_size == 0) return;
+  // empty input: the result is zero
+  if (a_size == 0) {
+    for (uint64_t j = 0; j < res_size; ++j) {
+      znx_zero_i64_ref(nn, res + j * res_sl);
+    }
+    return;
+  }
+
   // use MSB limb of res for carry propagation
   int64_t* cout = (int64_t*)tmp_space;
   int64_t* cin = 0x0;
